@@ -162,7 +162,9 @@ func c05Defects(base *specs.Spec) []c05Defect {
 		}
 	}
 	// --- kind
-	for _, k := range []string{"", "vendorclass", "/class", "vendor/", "1vendor/class", "vendor-/class", "vendor/class_", "ven dor/class", "vendor/cl:ass", "vendor/_class", ".vendor/class", "vendor/class/x", "vendor/é"} {
+	for _, k := range []string{"", "vendorclass", "/class", "vendor/", "1vendor/class", "vendor-/class", "vendor/class_", "ven dor/class", "vendor/cl:ass", "vendor/_class", ".vendor/class", "vendor/class/x", "vendor/é",
+		// letters and digits are the ASCII ones: no other alphabet, no look-alikes, in any position
+		"vendör.com/class", "vendor.com/clаss" /* Cyrillic а */, "vendor.com/cla\u212ass" /* Kelvin sign */, "vendor.com/cl٣ss" /* Arabic-Indic digit */, "vendor.com/clａss" /* fullwidth a */, "vεndor/class", "vendor/cl\u0131ss" /* dotless i */} {
 		k := k
 		mem("kind", "spec", "-", fmt.Sprintf("%q", k), func(s *specs.Spec) { s.Kind = k })
 	}
@@ -171,7 +173,7 @@ func c05Defects(base *specs.Spec) []c05Defect {
 	for i := 0; i < 3; i++ {
 		i := i
 		lvl := fmt.Sprintf("dev%d", i)
-		for _, n := range []string{"", "-a", "a-", "a b", "a/b", "é", "a=b", ":a", "a:"} {
+		for _, n := range []string{"", "-a", "a-", "a b", "a/b", "é", "a=b", ":a", "a:", "dév", "dеv" /* Cyrillic е */, "d٣v", "d\u212av", "dｅv", "a\u00b2b" /* superscript two */, "a\u0660b"} {
 			n := n
 			mem("device-name", lvl, "-", fmt.Sprintf("%q", n), func(s *specs.Spec) { s.Devices[i].Name = n })
 		}
@@ -230,7 +232,7 @@ func c05Defects(base *specs.Spec) []c05Defect {
 			mem("rdt-closid", lvl, "-", v, func(s *specs.Spec) { c05Edits(s, lvl).IntelRdt.ClosID = id })
 		}
 		// annotations
-		for _, k := range []string{"a b", strings.Repeat("a", 64), "-x.com/a", "", "a/b/c", "x.com/", "/a", "a_", ".a", "x..com/a", "x_y.com/a", strings.Repeat("p", 254) + "/a", "é", "K", "aK"} {
+		for _, k := range []string{"a b", strings.Repeat("a", 64), "-x.com/a", "", "a/b/c", "x.com/", "/a", "a_", ".a", "x..com/a", "x_y.com/a", "example.com./note", ".example.com/note", "example.com../a", "./a", "../a", "a./b", "xn--.com/a", "-.com/a", "a.-/b", strings.Repeat("p", 254) + "/a", "é", "K", "aK"} {
 			k := k
 			v := fmt.Sprintf("%q", k)
 			if len(k) > 20 {
